@@ -46,6 +46,9 @@ func Slice(y tensor.Tensor, x tensor.Tensor, index []tensor.Range) (gctx *GradCo
 		return NewGradContext(false)
 	}
 
+	// the closure outlives this call: it must not observe later changes of the caller's slice
+	index = copiedIndex(index)
+
 	return &GradContext{
 		tracked: true,
 		backEdges: []*backwardEdge{
@@ -66,6 +69,9 @@ func Patch(y tensor.Tensor, x tensor.Tensor, p tensor.Tensor, index []tensor.Ran
 	if nonIsTracked(x, p) {
 		return NewGradContext(false)
 	}
+
+	// the closures outlive this call: they must not observe later changes of the caller's slice
+	index = copiedIndex(index)
 
 	return &GradContext{
 		tracked: true,
